@@ -142,6 +142,38 @@ def _reg_row(N, nsig, fixed=()):
             O.prove(p, total == bv64(nsig), "an accepted row has exactly one entry per header column",
                     lambda mod: {"family": "malformed", "what": "row length", "ntokens": len(ts.kinds)},
                     R.battery, R.judge, extra=[rt == bv64(0)])
+            # what was consumed against what was accepted: a row stops only at a line break / the end of the source, and
+            # when every token it consumed is a one-token entry (number, X / Z / C) there are exactly as many tokens as
+            # header columns - an entry that is consumed but not counted must not slip through
+            cons = p.state.extra.get("consumed", [])
+            allk = ts.kinds + [bv64(ts.EOF)]
+            SIMPLE = [bv64(m.vidx("TokenKind", k)) for k in ("DecInt", "HexInt", "OctInt", "BinInt", "Ident")]
+            pos = p.state.extra.get("tokpos")
+            nxt = z3.simplify(pos.term).as_long() if pos is not None else 0
+
+            def row_scen(mod, nsig=nsig):
+                kinds_, sids = C09.token_facts(m, ts, mod)
+                hdr = " ".join("H%d" % i for i in range(nsig))
+                own = []
+                for cut in (len(kinds_), max(nxt, 1)):
+                    for nl in (False, True):
+                        own.append(Scenario(C09.render(m, kinds_[:cut], sids, hdr, nl), [], mode="parse", expect={"parse": "err"},
+                                            note="row of %d tokens under a header of %d columns" % (cut, nsig)))
+                        own.append(Scenario(hdr + "\nloop(i,2)\n" + C09.render(m, kinds_[:cut], sids, hdr, True).split("\n", 1)[1] + "end loop\n",
+                                            [], mode="parse", expect={"parse": "err"}, note="the same row inside a loop"))
+                return own + R.battery
+            if nxt <= ts.n:
+                O.prove(p, z3.Or(allk[nxt] == bv64(m.vidx("TokenKind", "Eol")), allk[nxt] == bv64(ts.EOF)),
+                        "an accepted row ends at a line break or at the end of the source",
+                        lambda mod: {"family": "malformed", "what": "row end", "ntokens": len(ts.kinds)}, row_scen, R.judge,
+                        extra=[rt == bv64(0)])
+            simple = [z3.Or([allk[i] == k_ for k_ in SIMPLE]) for i in cons if i < len(allk)]
+            if len(cons) != nsig:
+                O.prove(p, z3.Not(z3.And(simple)) if simple else z3.BoolVal(False),
+                        "a row of one-token entries is accepted only with exactly one token per header column "
+                        "(%d consumed, %d columns)" % (len(cons), nsig),
+                        lambda mod: {"family": "malformed", "what": "row length (tokens consumed)", "ntokens": len(cons)},
+                        row_scen, R.judge, extra=[rt == bv64(0)])
             # bits widths: the width used is the literal's value and at most 64
             fr_ = p.calls(r"from_str_radix$")
             for ix, e in (data.elems or []):
